@@ -22,7 +22,7 @@ line, token hash, the drops applied, and the line range it occupies in the gener
 ghost-only check re-lexes each generated item with the recorded ghost insertions removed and compares
 the executable token stream with the source item's (minus the tokens dropped by rule).
 """
-import re
+import re, os
 from .rustlex import lex, TRIVIA, Tok
 from .extract import select, match_close, LostAnchor, token_hash, SourceFile, Item, parse_items
 
@@ -341,7 +341,7 @@ def expand(template_text, backend="verus"):
             # options: trailing words that are known option names
             words = rest.split()
             optwords = []
-            while words and re.match(r"^(nopub|keepattrs|from_core|derive\+?=.*|drop=.*|as=.*|strip_tests|optional)$", words[-1]):
+            while words and re.match(r"^(nopub|keepattrs|from_core|derive\+?=.*|drop=.*|as=.*|strip_tests|optional|inline_mods)$", words[-1]):
                 optwords.insert(0, words.pop())
             selector = " ".join(words)
             opts = parse_opts(optwords)
@@ -359,6 +359,41 @@ def expand(template_text, backend="verus"):
                             if "cfg(test)" in attrs.replace(" ", ""):
                                 for q in range(it.full_start, it.end): skip.add(q)
                                 drops.append("D6 #[cfg(test)] mod %s dropped" % it.name)
+                if "inline_mods" in opts:
+                    # D7: an out-of-line child module `mod name;` of the file is replaced by `mod name { <the child file, same rules> }`
+                    # (the harness crate has no directory for it); the child file is looked up as <dir>/name.rs, then <dir>/name/mod.rs
+                    def _child_text(parent_rel, name):
+                        d = os.path.dirname(parent_rel)
+                        if os.path.basename(parent_rel) not in ("mod.rs", "lib.rs", "main.rs"): d = os.path.join(d, os.path.splitext(os.path.basename(parent_rel))[0])
+                        for cand in (os.path.join(d, name + ".rs"), os.path.join(d, name, "mod.rs")):
+                            try: return cand, SourceFile.get(cand)
+                            except Exception: continue
+                        raise LostAnchor("inline_mods: no file for `mod %s;` of %s" % (name, parent_rel))
+                    def _inline(rel, csf):
+                        ctoks = csf.toks
+                        cdrops = []
+                        cskip, crep, cpre = _apply_rules(ctoks, 0, len(ctoks), opts, cdrops, whole_file=True)
+                        for it2 in csf.items:
+                            if it2.kind != "mod": continue
+                            attrs2 = "".join(t.text for t in ctoks[it2.full_start:it2.core]).replace(" ", "")
+                            if "cfg(test)" in attrs2:
+                                if "strip_tests" in opts:
+                                    for q in range(it2.full_start, it2.end): cskip.add(q)
+                                continue
+                            if it2.body_range() is None:
+                                crel, ccsf = _child_text(rel, it2.name)
+                                semi = it2.end - 1
+                                while semi > it2.core and ctoks[semi].text != ";": semi -= 1
+                                crep[semi] = " {\n" + _inline(crel, ccsf) + "\n}"
+                                drops.append("D7 `mod %s;` of %s inlined from %s" % (it2.name, rel, crel))
+                        return "".join(sg.text for sg in _emit(ctoks, 0, len(ctoks), cskip, crep, cpre, {}, {}))
+                    for it in sf.items:
+                        if it.kind == "mod" and it.body_range() is None and not any(q in skip for q in range(it.full_start, it.end)):
+                            crel, csf = _child_text(selector, it.name)
+                            semi = it.end - 1
+                            while semi > it.core and toks[semi].text != ";": semi -= 1
+                            replace[semi] = " {\n" + _inline(crel, csf) + "\n}"
+                            drops.append("D7 `mod %s;` of %s inlined from %s" % (it.name, selector, crel))
                 segs = _emit(toks, 0, len(toks), skip, replace, prefix, {}, {})
                 gi.file = selector; gi.kind = "file"; gi.name = selector; gi.src_line = 1
                 gi.hash = token_hash([t.text for q, t in enumerate(toks) if t.kind not in TRIVIA and q not in skip])
